@@ -30,8 +30,23 @@ def extract(ctx):
             raise ExtractError('R14: `levels` does not occur in getBoundaries')
         insts.append(t)
     log['R14 textual instantiation of template<unsigned levels> getBoundaries at 0,1,2'] = 3
+    # compiled path wrappers of EqRel.h: t_eqrel::lowerUpperRange_10/_01/_11 (the 3-argument forms) and reorder
+    er = Source(os.path.join(ctx.repo, 'src/include/souffle/datastructure/EqRel.h'))
+    wr = []
+    for nm, it in (('10', 'iterator'), ('01', 'iterator_1'), ('11', 'iterator')):
+        t, _ = er.block(r'range<%s>\s+lowerUpperRange_%s\s*\(\s*const\s+t_tuple&\s*lower\s*,\s*const\s+t_tuple&\s*,\s*context&\s*h\s*\)\s*const\s*\{' % (it, nm), semi=False)
+        wr.append(strip_comments(t))
+    ro, _ = er.block(r'static\s+t_tuple\s+reorder\s*\(\s*const\s+t_tuple&\s*t\s*\)\s*\{', semi=False)
+    wtext = '\n'.join(wr) + '\n' + strip_comments(ro)
+    wtext, n14 = re.subn(r'ind\.template\s+getBoundaries<\s*(\d)\s*>\(', r'ind.getBoundaries_\1(', wtext)
+    wtext, n2 = re.subn(r'\bauto\s+r\b', 'range<vx_iter> r', wtext)
+    log['R14 ind.template getBoundaries<k>( -> ind.getBoundaries_k('] = n14
+    log['R2 auto r -> range<vx_iter> (the scaffold range type)'] = n2
+    if n14 != 3 or n2 != 3:
+        raise ExtractError('EqRel.h wrappers: expected three getBoundaries calls')
     text = ('#include "ramtypes.hpp"\n#include "vx_eqrel.h"\nnamespace souffle {\nstruct EqrelScaffold : public vx_eqrel_base {\n'
-            + strip_comments(lb) + '\n' + '\n'.join(insts) + '\n};\n}\n')
+            + strip_comments(lb) + '\n' + '\n'.join(insts) + '\n};\n'
+            'struct t_eqrel_scaffold : public vx_t_eqrel_base {\n    EqrelScaffold ind;\n' + wtext + '\n};\n}\n')
     ctx.write('extracted.hpp', text)
     ctx.rewrites.update(log)
     # static facts about the caller's encoding of unbound columns (interpreter)
@@ -58,10 +73,16 @@ def harnesses(ctx):
         hs.append(Harness('eqrel.getBoundaries_%d' % n, 'harness_gb%d' % n, cpp=cpp, c=c, enforce='h_getBoundaries_%d' % n, must_have=['postcondition'],
                           clause='compiled look-up with %d bound columns: range for every 32-bit value' % n,
                           funcs=['souffle::EquivalenceRelation::getBoundaries<%d>(const TupleType&, operation_hints&)' % n]))
+    for nm, what in (('10', 'first column bound'), ('01', 'second column bound (reordered look-up: by symmetry the pairs (_,v) are the pairs (v,_) swapped)'), ('11', 'both columns bound')):
+        hs.append(Harness('eqrel.range_%s' % nm, 'harness_range_%s' % nm, cpp=cpp, c=c, enforce='h_range_%s' % nm, must_have=['postcondition'],
+                          clause='compiled look-up wrapper t_eqrel::lowerUpperRange_%s, %s: range for every 32-bit value' % (nm, what),
+                          funcs=['souffle::t_eqrel::lowerUpperRange_%s' % nm, 'souffle::t_eqrel::reorder']))
     return hs
 
 
 def replay(ctx, h, r, ins, tr):
+    if h.name.startswith('eqrel.range_'):
+        return None, 'no native replay for the t_eqrel wrappers (generated-code interface)'
     last = (tr or {}).get('last', {})
     compiled = h.name != 'eqrel.lower_bound'
     try:
@@ -90,7 +111,11 @@ ASSUMPTIONS = [
 ]
 TRUSTED = ['units/eqrel/vx_eqrel.h (scaffold: range descriptor, sds stubs)', 'rewrite rule R14 (textual instantiation of the non-type template parameter)']
 
+ER2 = 'src/include/souffle/datastructure/EqRel.h'
 MUTANTS = [
+    dict(name='lowerUpperRange_01 forgets to reorder the key', file=ER2, find=r'getBoundaries<1>\(reorder\(lower\), h\.hints\)', repl='getBoundaries<1>((lower), h.hints)', expect=r'eqrel\.range_01'),
+    dict(name='lowerUpperRange_01 yields unswapped tuples', file=ER2, find=r'(range<iterator_1> lowerUpperRange_01\(const t_tuple& lower, const t_tuple& /\*upper\*/, context& h\) const \{.*?)return make_range\(iterator_1\(r\.begin\(\)\), iterator_1\(r\.end\(\)\)\);', repl=r'\1return make_range(iterator_1(r.begin()), iterator_1(r.begin()));', expect=r'eqrel\.range_01'),
+    dict(name='reorder copies column 0 twice', file=ER2, find=r'res\[1\] = t\[0\];', repl='res[1] = t[1];', expect=r'eqrel\.range_01'),
     dict(name='getBoundaries<1> skips existence test', file=ER, find=r'if \(!sds\.nodeExists\(entry\[0\]\)\) return make_range\(end\(\), end\(\)\);', repl='', expect=r'eqrel\.getBoundaries_1 :: .*postcondition'),
     dict(name='getBoundaries<2> uses anteriorIt', file=ER, find=r'return make_range\(antpostit\(entry\[0\], entry\[1\]\), end\(\)\);', repl='return make_range(anteriorIt(entry[0]), end());', expect=r'eqrel\.getBoundaries_2 :: .*postcondition'),
     dict(name='lower_bound 11 swaps arguments', file=ER, find=r'return antpostit\(entry\[0\], entry\[1\]\);', repl='return antpostit(entry[1], entry[0]);', expect=r'eqrel\.lower_bound :: .*postcondition'),
